@@ -58,7 +58,7 @@ fn close(a: f64, b: f64) -> bool {
 }
 
 fn one_tree(t: &Rose, rng: &mut Rng, rep: &mut Report, batch: &mut Batch, exact: bool) {
-    let how = *rng.pick(&["api", "bfs", "tomb", "parse", "grown", "bottomup"]);
+    let how = *rng.pick(&["api", "bfs", "tomb", "tomb2", "parse", "grown", "bottomup"]);
     let start = format!("real.build\t{how}\t{}\t{}", t.canon(), rng.next() % 100_000);
     let mut st = RealState::new();
     let mut case = Case::new();
